@@ -432,7 +432,8 @@ struct StreamWorld : World {
                     o.live = false;
                 }
             } else if (c < 95) {
-                pl.add("perm", {slot, (int64_t)r.below(12), (int64_t)(r.next() >> 1)});
+                if (r.chance(1, 2)) pl.add("perm", {slot, (int64_t)r.below(12), (int64_t)(r.next() >> 1)});
+                else pl.add("sapi", {slot, (int64_t)(1 + r.below(10)), (int64_t)(r.next() >> 1)});
             } else {
                 pl.add("free", {slot}); // mid-stream free
                 o.live = false;
@@ -712,6 +713,56 @@ struct StreamWorld : World {
         if (c.residue) c.residue->push_back(Residue{c.run->cur_op, -1, NKINDS, Bytes(mem, mem + sizeof(ascon_state_t))});
     }
 
+    // The byte-access interface of the permutation state, as a caller may use it: every (offset, size) with
+    // offset + size <= 40 (zero sizes and ranges ending exactly at byte 40 included), exact-size data buffers,
+    // a state object that ends where its 40 bytes end (guard bytes or a guard page behind it), identical input and
+    // output for extract-and-overwrite.  Outputs go into the history digest (C09); overruns are C12's.
+    static void do_sapi(Ctx &c, const Op &op)
+    {
+        unsigned steps = (unsigned)(op.u(1) % 11);
+        Rng r(op.u(2));
+        GuardBuf sb(sizeof(ascon_state_t), 0, c.page, 0xD7);
+        ascon_state_t *st = (ascon_state_t *)sb.p;
+        uint8_t seed[40];
+        fill_bytes(seed, 40, op.u(2) ^ c.salt);
+        ascon_init(st);
+        ascon_overwrite_bytes(st, seed, 0, 40);
+        for (unsigned k = 0; k < steps; ++k) {
+            unsigned off, size;
+            switch (r.below(5)) {
+            case 0: off = (unsigned)r.below(41); size = 40 - off; break;                        // ends exactly at byte 40
+            case 1: off = (unsigned)r.below(41); size = 0; break;                               // empty range anywhere, offset 40 included
+            case 2: off = (unsigned)(8 * r.below(5)); size = (unsigned)r.below(40 - off + 1); break; // starts on a word
+            default: off = (unsigned)r.below(41); size = (unsigned)r.below(40 - off + 1); break;
+            }
+            int kind = (int)r.below(8);
+            GuardBuf in(size, (unsigned)r.below(16), c.page), out(size, (unsigned)r.below(16), c.page);
+            fill_bytes(in.p, size, r.next() ^ c.salt);
+            const char *site = "";
+            switch (kind) {
+            case 0: site = "ascon_add_bytes"; ascon_add_bytes(st, in.p, off, size); break;
+            case 1: site = "ascon_overwrite_bytes"; ascon_overwrite_bytes(st, in.p, off, size); break;
+            case 2: site = "ascon_overwrite_with_zeroes"; ascon_overwrite_with_zeroes(st, off, size); break;
+            case 3: site = "ascon_extract_bytes"; ascon_extract_bytes(st, out.p, off, size); break;
+            case 4: site = "ascon_extract_and_add_bytes"; ascon_extract_and_add_bytes(st, in.p, out.p, off, size); break;
+            case 5: site = "ascon_extract_and_overwrite_bytes"; ascon_extract_and_overwrite_bytes(st, in.p, out.p, off, size); break;
+            case 6: site = "ascon_extract_and_overwrite_bytes(in place)"; memcpy(out.p, in.p, size); ascon_extract_and_overwrite_bytes(st, out.p, out.p, off, size); break;
+            default: site = "ascon_permute"; ascon_permute(st, (uint8_t)r.below(12)); break;
+            }
+            if (c.record) {
+                if (!sb.intact()) c.run->violation("C12", "canary", site, fmt("bytes around the 40-byte state were written (offset=%u size=%u)", off, size));
+                if (!in.intact() || !out.intact()) c.run->violation("C12", "canary", site, fmt("bytes outside the data range were written (offset=%u size=%u)", off, size));
+                if (kind >= 3 && kind <= 6) c.run->fold(out.p, size);
+                c.run->state(fmt("sapi/%d/%s/%s", kind, size == 0 ? "0" : off + size == 40 ? "end" : (off & 7) ? "odd" : "word", size < 8 ? "<8" : ">=8"));
+            }
+        }
+        uint8_t o[40];
+        ascon_extract_bytes(st, o, 0, 40);
+        ascon_free(st);
+        if (c.record) { c.run->fold(o, 40); c.run->probe("sapi.sequences"); }
+        if (c.residue) c.residue->push_back(Residue{c.run->cur_op, -1, NKINDS, Bytes(sb.p, sb.p + sizeof(ascon_state_t))});
+    }
+
     void pass(const Plan &plan, Run &run, uint64_t salt, std::vector<Residue> *res, bool record)
     {
         Ctx c;
@@ -735,6 +786,7 @@ struct StreamWorld : World {
             else if (op.name == "copy") do_copy(c, op);
             else if (op.name == "free") do_free(c, (int)(op.u(0) % NSLOTS), true);
             else if (op.name == "perm") do_perm(c, op);
+            else if (op.name == "sapi") do_sapi(c, op);
             else if (op.name == "next") do_next(c, op);
         }
         for (int s = 0; s < NSLOTS; ++s) do_free(c, s, false);
